@@ -57,18 +57,25 @@ def get_stratify_compartments_func(
         """
         population_split = get_static_param_value(strat.population_split, static_graph_values)
 
-        new_comp_values = jnp.empty(strat._new_size)
-        new_comp_values = new_comp_values.at[strat._passthrough_target_indices].set(
-            comp_values[strat._passthrough_base_indices]
+        new_comp_values = jnp.empty(new_size)
+        new_comp_values = new_comp_values.at[passthrough_target_indices].set(
+            comp_values[passthrough_base_indices]
         )
 
-        base_values = comp_values[strat._strat_base_indices]
+        base_values = comp_values[strat_base_indices]
         for stratum in strat.strata:
             new_value = base_values * population_split[stratum]
-            new_comp_values = new_comp_values.at[strat._stratum_target_indices[stratum]].set(
-                new_value
-            )
+            new_comp_values = new_comp_values.at[stratum_target_indices[stratum]].set(new_value)
         return new_comp_values
+
+    # The layout of this model: the index arrays on the Stratification object are rewritten whenever
+    # the object is applied to (or a runner is built for) another model, so keep our own
+    strat._stratify_compartments(input_comps)
+    new_size = strat._new_size
+    passthrough_target_indices = strat._passthrough_target_indices
+    passthrough_base_indices = strat._passthrough_base_indices
+    strat_base_indices = strat._strat_base_indices
+    stratum_target_indices = dict(strat._stratum_target_indices)
 
     return stratify_compartment_values
 
